@@ -773,11 +773,17 @@ func SecurityMatrix() *m.Design {
 	inherited := &m.Method{Name: "inherited", Creds: []m.Cred{{Scheme: "jwt", Kind: "token", Attr: "token"}}, ImplicitAuth: []string{"token"},
 		Payload: obj(fld("token", str(), true), fld("q", str(), false)),
 		HTTP:    &m.HTTPEndpoint{Routes: []m.Route{{Verb: "GET", Path: "/sec/inherited"}}, Headers: []m.Mapping{{Attr: "token", Wire: "Authorization"}}, Query: []m.Mapping{{Attr: "q"}}}}
+	// a requirement with two required scopes, next to an alternative one
+	purge := &m.Method{Name: "purge", Security: []m.Requirement{{Schemes: []string{"jwt"}, Scopes: []string{"api:read", "api:write"}}, {Schemes: []string{"key"}}},
+		Creds:   []m.Cred{{Scheme: "jwt", Kind: "token", Attr: "tok"}, {Scheme: "key", Kind: "apikey", Attr: "k"}},
+		Payload: obj(fld("tok", str(), false), fld("k", str(), false), fld("what", str(), true)),
+		HTTP: &m.HTTPEndpoint{Routes: []m.Route{{Verb: "POST", Path: "/sec/purge"}},
+			Headers: []m.Mapping{{Attr: "tok", Wire: "X-Token"}}, Query: []m.Mapping{{Attr: "k", Wire: "api_key"}}}}
 	open := &m.Method{Name: "open", NoSecurity: true, Payload: obj(fld("q", str(), false)),
 		HTTP: &m.HTTPEndpoint{Routes: []m.Route{{Verb: "GET", Path: "/sec/open"}}, Query: []m.Mapping{{Attr: "q"}}}}
 	return &m.Design{API: m.API{Name: "secmatrix", Title: "Security matrix"},
 		Types: []*m.UserType{thing}, Schemes: schemes,
-		Services: []*m.Service{{Name: "secmatrix", HasHTTP: true, Security: []m.Requirement{jwtRead}, Methods: []*m.Method{store, fetch, rename, both, login, inherited, open}}},
+		Services: []*m.Service{{Name: "secmatrix", HasHTTP: true, Security: []m.Requirement{jwtRead}, Methods: []*m.Method{store, fetch, rename, both, login, inherited, purge, open}}},
 		Features: []string{"fixed-design:security-matrix", "implicit-authorization", "explicit-body-without-credential", "lower-case-authorization-header", "alternative-requirements", "two-schemes-one-requirement", "inherited-security", "no-security"}}
 }
 
